@@ -14,6 +14,15 @@ import vlib
 S = B = 1024 * 1024
 
 
+def ref_decode(codec, data):
+    import bz2, gzip, lzma
+    if codec == "gz":
+        return gzip.decompress(data)
+    if codec == "bz2":
+        return bz2.decompress(data)
+    return lzma.decompress(data, format=lzma.FORMAT_XZ)
+
+
 def main(ctx):
     thorough = ctx.tier == "thorough"
     if ctx.replay:
@@ -49,6 +58,17 @@ def main(ctx):
             intact[(f["fmt"], f["size"])] = f["file"]
     for f in files:
         kind = {"ueof": "trunc", "other": "corrupt", "open": "header", "none": "none"}[f["err"]]
+        # second, independent instrument for gz / bz2 / xz: the reference decoders of the Python standard library.
+        # When the Go library linked by the repository takes the faulted bytes for a complete stream but the
+        # reference decoder reports the fault, the input IS faulty: it must be reported (class <lib>-accepts).
+        f["libaccepts"] = ""
+        if f["fault"] != "none" and kind == "none" and f["codec"] in ("gz", "bz2", "xz"):
+            try:
+                ref_decode(f["codec"], open(f["file"], "rb").read())
+            except Exception as ex:
+                kind = "trunc" if f["fault"] == "trunc" else "corrupt"
+                f["libaccepts"] = {"gz": "gzip", "bz2": "bzip2", "xz": "xz"}[f["codec"]] + "-library-accepts"
+                f["errtext"] = "reference decoder: " + str(ex)[:60]
         magic = {"gz": 2, "bz2": 3, "zst": 4, "xz": 6}[f["codec"]]
         if f["fault"] == "trunc" and f["t"] < magic:
             skipped["shorter-than-magic-number"] = skipped.get("shorter-than-magic-number", 0) + 1
@@ -74,7 +94,7 @@ def main(ctx):
             jobs.append({"argv": argv, "stdin": stdin})
             evs.append({"op": "file", "mode": name, "codec": f["codec"], "fault": f["fault"], "t": f["t"], "clen": f["clen"],
                         "fmt": f["fmt"], "size": f["size"], "kind": kind, "D": f["D"], "d": f["d"], "S": S, "B": B,
-                        "nrec": f["nrec"], "errtext": f["errtext"][:80], "hung": 0, "pgz": f.get("pgz", "")})
+                        "nrec": f["nrec"], "errtext": f["errtext"][:80], "hung": 0, "pgz": f.get("pgz", ""), "libaccepts": f["libaccepts"]})
     res = ctx.run_many(jobs, timeout=180)
     for e, r in zip(evs, res):
         e["rc"] = r["rc"]
@@ -107,7 +127,7 @@ def main(ctx):
         e = events[r["l"] - 1]
         # the file readers decompress .gz with klauspost/pgzip: when that library itself takes the faulted bytes
         # for a complete stream, the acceptance is the third-party module's (known finding), not the repository's
-        where = "pgzip-accepts" if (e["mode"] != "obiconvert-stdin" and e.get("pgz") == "accepts") else "inside"
+        where = "pgzip-accepts" if (e["mode"] != "obiconvert-stdin" and e.get("pgz") == "accepts") else (e.get("libaccepts") or "inside")
         cls = "%s/%s/%s/%s/%s" % (e["mode"], e["codec"], e["fault"], e["kind"], where)
         ctx.violation("C17.%s.%s" % (e["mode"], r["why"]), cls,
                       "%s on %s file (%s at %d of %d bytes; codec delivers %d of %d bytes then '%s'): rc=%d, %d of %d records written"
